@@ -1,5 +1,6 @@
 #!/bin/bash
 # usage: tools/confirm_benign.sh <dir with i/patch.diff> ...  -- each edit must apply, build without warnings and pass the suite (scratch worktree /tmp/wtconfirm)
+# (create the scratch worktree first: git -C /repo worktree add --detach /tmp/wtconfirm HEAD ; remove it afterwards: git -C /repo worktree remove --force /tmp/wtconfirm)
 for d in "$@"; do for s in $d/*/; do
   [ -f $s/patch.diff ] || continue
   cd /tmp/wtconfirm && git checkout -q -- . && git apply $s/patch.diff 2>/dev/null || { echo "$s: patch does not apply"; continue; }
